@@ -523,7 +523,11 @@ def oracle_sequences(ck, tier):
                       # and regularisers that differ only in their post-correction
                       [D(degree=3, reg=("L2", 1.0)), D(degree=3), D(degree=3, reg=("diff", 2.0)), D(degree=3, reg=0)],
                       [D(degree=2, reg=("diff", 2.0), n=9), D(degree=2, n=9), D(degree=0, reg=("L2", 1.0)), D(degree=0)],
-                      [D(reg=("L2", 2.0)), D(reg=("L2c", 2.0)), D(reg=("L2", 2.0)), D(reg=("L2c", 2.0), degree=3), D(reg=("L2", 2.0), degree=3)]],
+                      [D(reg=("L2", 2.0)), D(reg=("L2c", 2.0)), D(reg=("L2", 2.0)), D(reg=("L2c", 2.0), degree=3), D(reg=("L2", 2.0), degree=3)],
+                      # the post-corrected regulariser on an image narrower than the basis held in memory (its correction sums are those of
+                      # the cropped basis), every degree
+                      [D(n=25, reg=("L2c", 2.0)), D(n=9, reg=("L2c", 2.0)), D(n=17, degree=2, reg=("L2", 1.0)), D(n=9, degree=2, reg=("L2c", 0.5)),
+                       D(n=25, degree=1), D(n=17, degree=1, reg=("L2c", 2.0))]],
         "abel.dasch": [[S("two_point", dr=0.5), S("two_point", dr=0.5), S("three_point", dr=0.5), S("two_point", n=9, dr=2.0)],
                        [S("onion_peeling", n=25), S("two_point", n=9), S("onion_peeling", n=9, one=True, dr=0.5), S("onion_peeling", n=9, dr=0.5)],
                        # one method's operator read back from its file between two requests for another method (a generated one)
